@@ -1476,11 +1476,19 @@ def range_boundaries(R, ctx, rid):
         if fn.file != "yrs/src/iter.rs" or not fn.mir or "::test" in p:
             continue
         n_contains += len([c for c in fn.calls() if re.search(r"::(Item|ItemPtr|ItemSlice)::contains(_id)?$", "::" + F.strip_generics(c.name))])
+        v = None
         for i, j, st in fn.stmts():
             rv = st["rv"]
-            if rv.get("bin") in ("Le", "Lt", "Ge", "Gt", "Eq", "Ne") and "ID.clock" in _json.dumps(st):
-                raw.append((fn, st.get("line"), rv["bin"]))
-    R.floor(rid, "Item::contains boundary tests in iter.rs", n_contains, 4)
+            if rv.get("bin") in ("Le", "Lt", "Ge", "Gt", "Eq", "Ne"):
+                v = v or FnView(fn)
+                t = v.terms.rvalue(rv, 8)
+                if term_has_field(t, "ID.clock"):
+                    # arithmetic on the clock is fine once the id is known to lie in the item (offset of the cut)
+                    inside = v.has_guard(i, lambda l: isinstance(l.term, tuple) and l.term[0] == "call" and
+                                         re.search(r"::contains(_id)?$", F.strip_generics(l.term[1])) is not None and l.polarity is True)
+                    if not inside:
+                        raw.append((fn, st.get("line"), rv["bin"]))
+    R.floor(rid, "Item::contains boundary tests in iter.rs", n_contains, 2)
     for fn, line, op in raw:
         R.ob(rid, fn, "raw-clock-test:%s" % op, False, "compares the clock of an id directly (%s) — the client is not part of the test" % op,
              "%s:%s" % (fn.file, line))
